@@ -197,7 +197,7 @@ def run(ctx):
     prog = common.view(ctx, "default")
     lib = prog.lib
     roles = common.role_fields(ctx, lib, want=common.FMT_ROLES)
-    ctx.rule("DEF-1", "RegExpConfig::new(): every boolean option off, both thresholds 1")
+    ctx.rule("DEF-1", "every used argument-less producer of the settings (RegExpConfig::new, a derived Default once something calls it): every boolean option off, both thresholds 1")
     common.def1(ctx, lib)
     pf = prc1(ctx, lib)
     if pf is not None:
@@ -228,6 +228,7 @@ def run(ctx):
     counting.cnt1(ctx, lib)
     counting.cnt2(ctx, lib)
     counting.chr1(ctx, lib)
+    counting.fch1(ctx, lib)
     ctx.rule("BRZ-1", "every update of the equation system in the state-elimination function has the shape of Brzozowski's algebraic method "
                       "(b[n]=a[n,n]*b[n]; a[n,j]=a[n,n]*a[n,j]; b[i]=b[i]+a[i,n]b[n]; a[i,j]=a[i,j]+a[i,n]a[n,j]; n = reversed loop variable)")
     brz1(ctx, lib)
